@@ -159,6 +159,7 @@ func bufprop(r *simkit.Run, prop string) {
 				sc.readN = rapid.IntRange(0, ex.bodyLen+1).Draw(rt, "read-n")
 			}
 			sc.mutate = rapid.Bool().Draw(rt, "mutate")
+			sc.early = rapid.IntRange(0, 5).Draw(rt, "early-hints") == 0
 			sc.status = rapid.SampledFrom([]int{0, 0, 200, 200, 201, 204, 301, 304, 404, 500, 502, 503, 504}).Draw(rt, "status")
 			if rapid.Bool().Draw(rt, "resp-hdr") {
 				sc.headers.Add("X-Multi-Resp", "a")
